@@ -95,7 +95,7 @@ def run(out, info, tier, seed):
     sl = lambda l: f"{len(l)} " + ' '.join(map(str, l)) if l else '0'
     for nsrc in range(0, 8):
         for ndest in range(1, 7):
-            for evenly, maxc in [(True, None), (False, None), (False, 1), (False, 2), (False, 3)]:
+            for evenly, maxc in [(True, None), (False, None), (False, 1), (False, 2), (False, 3), (True, 1), (True, 2), (True, 4)]:   # (max_connects is documented to matter only with evenly=False)
                 for sd in range(nseeds):
                     n += 1
                     src, dest, conns, res, o, rec = call(nsrc, ndest, evenly, maxc, seed * 1000 + sd)
